@@ -440,4 +440,11 @@ def c09_d(ctx: Ctx):
     return out
 
 
-RULES = [c09_a, c09_b, c09_c, c09_d]
+@rule("C09-e")
+def c09_e(ctx: Ctx):
+    """repair(job_ids=...) repairs exactly the given jobs: only None means 'all jobs'."""
+    from .lints import sentinel_discipline
+    return sentinel_discipline(ctx, "C09-e", [("signac.project:Project.repair", "job_ids", "an empty selection must repair nothing; treated as 'not given' every job of the workspace is re-initialised / renamed")])
+
+
+RULES = [c09_a, c09_b, c09_c, c09_d, c09_e]
